@@ -28,6 +28,7 @@ type Config struct {
 	Timed     bool // global tick clock (C15-C17)
 	StoreHook bool // storage calls are crash points
 	Asym      bool // one-directional partitions are in the alphabet
+	Puppets   bool // only n0 is a real node; the others are played by the harness
 }
 
 type Budget struct {
@@ -41,14 +42,15 @@ type Budget struct {
 	Splits                           int // deliveries whose reply is withheld (<0: every delivery)
 	ClientTimeouts                   int
 	Cuts                             int // partition changes (isolate / mute / deafen / heal)
+	Steps                            int // total events (0 = unbounded, -1 = exhausted)
 	// Deviations bounds the number of times the environment departs from the
 	// default (first enabled, simplest-first) event; <0 = unbounded.
 	Deviations int
 }
 
 func (b Budget) String() string {
-	return fmt.Sprintf("to%d el%d ti%d be%d wr%d rd%d lr%d dr%d drr%d du%d cr%d ar%d rs%d mb%d ro%d sp%d ct%d fe%d dv%d cu%d",
-		b.Timeouts, b.Elapses, b.Ticks, b.Beats, b.Writes, b.Reads, b.LeaseReads, b.Drops, b.DropReplies, b.Dups, b.Crashes, b.Arms, b.Restarts, b.Members, b.Reorders, b.Splits, b.ClientTimeouts, b.FreeElapses, b.Deviations, b.Cuts)
+	return fmt.Sprintf("to%d el%d ti%d be%d wr%d rd%d lr%d dr%d drr%d du%d cr%d ar%d rs%d mb%d ro%d sp%d ct%d fe%d dv%d cu%d st%d",
+		b.Timeouts, b.Elapses, b.Ticks, b.Beats, b.Writes, b.Reads, b.LeaseReads, b.Drops, b.DropReplies, b.Dups, b.Crashes, b.Arms, b.Restarts, b.Members, b.Reorders, b.Splits, b.ClientTimeouts, b.FreeElapses, b.Deviations, b.Cuts, b.Steps)
 }
 
 // Event is one environment step.
@@ -384,6 +386,12 @@ func (c *Cluster) Apply(e Event) error {
 	if e.D {
 		c.B.Deviations--
 	}
+	if c.B.Steps > 0 {
+		c.B.Steps--
+		if c.B.Steps == 0 {
+			c.B.Steps = -1
+		}
+	}
 	switch e.K {
 	case "deliver":
 		m := c.Net.find(e.M)
@@ -579,6 +587,10 @@ func (c *Cluster) Apply(e Event) error {
 		c.B.Restarts--
 		c.construct(n)
 		c.start(n)
+	case "inj", "ans":
+		if err := c.applyPuppet(e); err != nil {
+			return err
+		}
 	default:
 		return fmt.Errorf("unknown event kind %q", e.K)
 	}
@@ -595,6 +607,9 @@ func (m *Msg) class() string {
 // applies the deviation bound: the first event is the default, any other one
 // costs a deviation.
 func (c *Cluster) Enabled() []Event {
+	if c.B.Steps < 0 {
+		return nil
+	}
 	ev := c.enabledAll()
 	if c.B.Deviations < 0 || len(ev) <= 1 {
 		return ev
@@ -610,6 +625,9 @@ func (c *Cluster) Enabled() []Event {
 
 func (c *Cluster) enabledAll() []Event {
 	var ev []Event
+	if c.Cfg.Puppets {
+		ev = c.puppetEnabled()
+	}
 	msgs := append([]*Msg(nil), c.Net.Msgs...)
 	sort.Slice(msgs, func(i, j int) bool { return msgs[i].Order < msgs[j].Order })
 	seen := map[string]bool{}
@@ -632,6 +650,9 @@ func (c *Cluster) enabledAll() []Event {
 		}
 	}
 	for _, m := range uniq {
+		if c.Cfg.Puppets {
+			break
+		}
 		if m.State == MSent && !c.Blocked[m.From][m.To] {
 			a := 0
 			if c.B.Reorders >= 0 && oldestTo[m.To] != m.Order {
@@ -787,7 +808,7 @@ func (c *Cluster) enabledAll() []Event {
 		}
 	}
 	for i, n := range c.Nodes {
-		if !n.Alive && c.B.Restarts > 0 {
+		if !n.Alive && c.B.Restarts > 0 && !(c.Cfg.Puppets && i > 0) {
 			ev = append(ev, Event{K: "restart", N: i})
 		}
 	}
